@@ -747,7 +747,9 @@ class ModelHist(Engine):
                   "duplicate names incl. names of user types, fluents and objects, values too deep to print, a bulk add_objects cut short by a "
                   "cancellation); ")
         if self.prop == "C22":
-            return common + ("clone taken at 1-3 seeded points; each later operation is delivered to original and clone "
+            return common + ("every replica is shadowed by a clone-free twin built from scratch by the operations delivered to it "
+                             "(same acceptance required); one-sided effect pairs aimed at one fluent and timing across replicas; "
+                             "clone taken at 1-3 seeded points; each later operation is delivered to original and clone "
                              "(in seeded order) or to one side only. non-trivial = >= 1 rejected operation delivered to "
                              "both AND >= 1 one-sided operation AND >= 3 operations judged after the clone; distinct = "
                              "digest of the (operation kind, outcome class) sequence")
@@ -758,7 +760,8 @@ class ModelHist(Engine):
         return ("script = one container kind (instantaneous action / one timing of a durative action / one timing of "
                 "the problem) + a multiset of 2-5 insertions (assign/increase/decrease, conditional or not, same or "
                 "different fluents and values incl. Int n vs explicit Real n, forall, simulated effect) applied to fresh containers "
-                "(in 30% of the scripts replaced by their clone() after the k-th insertion of every order) in 2-6 seeded "
+                "(in 30% of the scripts replaced by their clone() after the k-th insertion of every order; in 30% the later insertions go "
+                "alternately to the container and to its clone, each compared with a container of its own) in 2-6 seeded "
                 "permutations (all when <= 4 insertions) -- same conflict verdict required -- and then 3-8 more "
                 "insertions on the first container with a shadow container receiving only the accepted ones. non-trivial "
                 "= some insertion was rejected AND >= 2 later insertions were judged against the shadow; distinct = "
